@@ -552,6 +552,8 @@ class AstMixin:
                 return self.call_dunder(v, "__pos__", [])
             return +v
         if isinstance(e.op, ast.Invert):
+            if isinstance(v, enum.Flag) and not isinstance(v, int):
+                return (~v).value if False else v.__class__(~v.value & sum(m.value for m in v.__class__)).value if False else ~v
             if isinstance(v, SBool):
                 return -(sym.mk_int(SInt.lift(v))) - 1
             return ~v
@@ -579,6 +581,20 @@ class AstMixin:
         if op is ast.BitOr and (isinstance(a, (type, types.UnionType)) or isinstance(b, (type, types.UnionType))):
             return fn(a, b)
         if _symint(a) or _symint(b):
+            # non-int Flag/Enum members combined with a symbolic member of the same enum: use the integer values
+            flagcls = None
+            if isinstance(a, enum.Enum) and not isinstance(a, int) and isinstance(a.value, int):
+                flagcls, a = type(a), a.value
+            if isinstance(b, enum.Enum) and not isinstance(b, int) and isinstance(b.value, int):
+                flagcls, b = type(b), b.value
+            if flagcls is not None:
+                r = fn(a, b)
+                if isinstance(r, int) and not isinstance(r, bool):
+                    try:
+                        return flagcls(r)
+                    except ValueError:
+                        self.raise_(ValueError, "invalid flag value")
+                return r
             if op in (ast.FloorDiv, ast.Mod):
                 if isinstance(a, float) or isinstance(b, float):
                     raise Unsupported("float arithmetic")
@@ -779,6 +795,10 @@ class AstMixin:
                 return sym.Not(self.identical(a, b))
             self.raise_(TypeError, f"'{dn}' not supported between instances")
         if _symint(a) or _symint(b):
+            if isinstance(a, enum.Enum) and not isinstance(a, int) and isinstance(a.value, int):
+                a = a.value
+            if isinstance(b, enum.Enum) and not isinstance(b, int) and isinstance(b.value, int):
+                b = b.value
             if a is None or b is None or isinstance(a, (str, tuple)) or isinstance(b, (str, tuple)):
                 if op is ast.Eq:
                     return False
